@@ -8,6 +8,9 @@ src/operator/expr.rs:163-200, src/operator.rs:107-113.
 -/
 import AgModel.Ops
 import AgProofs.Lemmas.Fields
+import AgProofs.Lemmas.C06Json
+import AgProofs.Lemmas.C06Logfmt
+import AgProofs.Lemmas.FromFloat
 
 namespace Ag.C06
 open Ag
@@ -181,5 +184,248 @@ example : access (.obj [("a", .arr [.obj [("b", .str "x")]])]) [.field "a", .idx
   simp [access, Fields.get]
 example : access (.arr [.int 1]) [.idx 1] = .err "IndexOutOfRange" := by simp [access]
 example : access (.arr [.int 1]) [.idx (-2)] = .err "IndexOutOfRange" := by simp [access]
+
+/-! ### the JSON reader loses nothing -/
+
+section
+variable (P : F64 → List Char)
+
+mutual
+theorem need_le : ∀ (d : JDoc), NumsOK P d → ∀ k, need d + k.length ≤ (printK P d k).length
+  | .null, _, k => by simp [need, printK]; omega
+  | .bool true, _, k => by simp [need, printK]; omega
+  | .bool false, _, k => by simp [need, printK]; omega
+  | .int i, _, k => by
+    obtain ⟨c, t, h1, _⟩ := intText_head i
+    rw [printK, h1]; simp [need]; omega
+  | .num f, hn, k => by
+    obtain ⟨_, c, t, h1, _⟩ := hn
+    rw [printK, h1]; simp [need]; omega
+  | .str s, _, k => by
+    have := escK_length s ('"' :: k)
+    simp [need, printK] at this ⊢; omega
+  | .arr [], _, k => by simp [need, needElems, printK]; omega
+  | .arr (d :: ds), hn, k => by
+    have hnl : NumsOKs P (d :: ds) := hn
+    have h1 := need_le d hnl.1 (printElemsK P ds (']' :: k))
+    have h2 := needElems_le ds hnl.2 (']' :: k)
+    simp [need, needElems, printK] at h1 h2 ⊢; omega
+  | .obj [], _, k => by simp [need, needMembers, printK]; omega
+  | .obj ((key, d) :: rest), hn, k => by
+    have hnl : NumsOKm P ((key, d) :: rest) := hn
+    have h1 := need_le d hnl.1 (printMembersK P rest ('}' :: k))
+    have h2 := needMembers_le rest hnl.2 ('}' :: k)
+    have h3 := escK_length key ('"' :: ':' :: printK P d (printMembersK P rest ('}' :: k)))
+    simp [need, needMembers, printK] at h1 h2 h3 ⊢; omega
+theorem needElems_le : ∀ (l : List JDoc), NumsOKs P l → ∀ k, needElems l + k.length ≤ (printElemsK P l k).length
+  | [], _, k => by simp [needElems, printElemsK]
+  | d :: ds, hn, k => by
+    have h1 := need_le d hn.1 (printElemsK P ds k)
+    have h2 := needElems_le ds hn.2 k
+    simp [needElems, printElemsK] at h1 h2 ⊢; omega
+theorem needMembers_le : ∀ (l : List (List Char × JDoc)), NumsOKm P l →
+    ∀ k, needMembers l + k.length ≤ (printMembersK P l k).length
+  | [], _, k => by simp [needMembers, printMembersK]
+  | (key, d) :: rest, hn, k => by
+    have h1 := need_le d hn.1 (printMembersK P rest k)
+    have h2 := needMembers_le rest hn.2 k
+    have h3 := escK_length key ('"' :: ':' :: printK P d (printMembersK P rest k))
+    simp [needMembers, printMembersK] at h1 h2 h3 ⊢; omega
+end
+
+/-- **C06 (the reader is correct and loses nothing).** For every JSON document `d` — any nesting up to
+serde_json's limit of 127, any strings (written with serde_json's escapes `\"` `\\` `\b` `\f` `\n`
+`\r` `\t` `\u00XX`, everything else raw), duplicate and empty member names, integer literals inside
+i64, and other numbers printed by any printer `P` that the number reader inverts (`NumsOK`: external
+ryu / float parsing) — reading its canonical compact text gives exactly the direct structural
+translation `toValue d`: integers as themselves, strings character by character, arrays in order,
+objects as the finite map of their members (the last one when a name repeats), nothing dropped. -/
+theorem C06_json_roundtrip (d : JDoc) (hn : NumsOK P d) (hdepth : depthOf d ≤ 127) :
+    Json.parse (String.ofList (printK P d [])) = some (toValue d) := by
+  have hneed := need_le P d hn []
+  have := parseValue_print P d ((printK P d []).length + 2) 127 []
+    (by simp at hneed; omega) hdepth (Or.inl rfl) hn
+  simp [Json.parse, this, Json.skipWs]
+
+end
+
+/-- the LAST member named `k` of a document's member list -/
+def lastMember (k : String) : List (List Char × JDoc) → Option JDoc
+  | [] => none
+  | (k', d) :: rest =>
+    match lastMember k rest with
+    | some w => some w
+    | none => if k == String.ofList k' then some d else none
+
+theorem get_toFields (k : String) (kvs : List (List Char × JDoc)) :
+    ∀ acc, Fields.get k (toFields kvs acc) =
+      match lastMember k kvs with
+      | some d => some (toValue d)
+      | none => Fields.get k acc := by
+  induction kvs with
+  | nil => intro acc; simp [toFields, lastMember]
+  | cons kd rest ih =>
+    intro acc
+    obtain ⟨k', d⟩ := kd
+    simp only [toFields, lastMember]
+    rw [ih]
+    cases hl : lastMember k rest with
+    | some w => simp
+    | none =>
+      simp only
+      by_cases hk : k = String.ofList k'
+      · subst hk; simp [Fields.get_put_eq]
+      · have : (k == String.ofList k') = false := by simpa using hk
+        simp [this, Fields.get_put_ne k _ (toValue d) acc hk]
+
+/-! ### from the text to the row -/
+
+theorem sorted_tail {kv : String × Value} {t : Fields} (h : Fields.Sorted (kv :: t)) : Fields.Sorted t := by
+  cases t with
+  | nil => trivial
+  | cons kv' t' => obtain ⟨k, v⟩ := kv; obtain ⟨k', v'⟩ := kv'; exact h.2
+
+theorem sorted_head_lt {k : String} {v : Value} {t : Fields} (h : Fields.Sorted ((k, v) :: t)) :
+    ∀ x ∈ t, k < x.1 := by
+  induction t generalizing k v with
+  | nil => intro x hx; cases hx
+  | cons kv' t' ih =>
+    obtain ⟨k', v'⟩ := kv'
+    intro x hx
+    rcases List.mem_cons.1 hx with rfl | hx
+    · exact h.1
+    · exact String.lt_trans h.1 (ih h.2 x hx)
+
+theorem sorted_cons {k : String} {v : Value} {t : Fields} (ht : Fields.Sorted t)
+    (hlt : ∀ x ∈ t, k < x.1) : Fields.Sorted ((k, v) :: t) := by
+  cases t with
+  | nil => trivial
+  | cons kv' t' => obtain ⟨k', v'⟩ := kv'; exact ⟨hlt (k', v') (by simp), ht⟩
+
+theorem mem_put {k : String} {v : Value} {f : Fields} {x : String × Value} (hx : x ∈ Fields.put k v f) :
+    x = (k, v) ∨ x ∈ f := by
+  induction f with
+  | nil => simp [Fields.put] at hx; exact Or.inl hx
+  | cons kv t ih =>
+    obtain ⟨k', v'⟩ := kv
+    simp only [Fields.put] at hx
+    split at hx
+    · rcases List.mem_cons.1 hx with h | h
+      · exact Or.inl h
+      · exact Or.inr h
+    · split at hx
+      · rcases List.mem_cons.1 hx with h | h
+        · exact Or.inl h
+        · exact Or.inr (by simp [h])
+      · rcases List.mem_cons.1 hx with h | h
+        · exact Or.inr (by simp [h])
+        · rcases ih h with h | h
+          · exact Or.inl h
+          · exact Or.inr (by simp [h])
+
+/-- `HashMap::insert` on the key-sorted representation keeps it a finite map -/
+theorem put_sorted (k : String) (v : Value) (f : Fields) (h : Fields.Sorted f) :
+    Fields.Sorted (Fields.put k v f) := by
+  induction f with
+  | nil => trivial
+  | cons kv t ih =>
+    obtain ⟨k', v'⟩ := kv
+    simp only [Fields.put]
+    split
+    · rename_i hlt; exact ⟨hlt, h⟩
+    · split
+      · rename_i _ heq
+        have e : k = k' := by simpa using heq
+        subst e
+        exact sorted_cons (sorted_tail h) (sorted_head_lt h)
+      · rename_i hnlt hne
+        have hne' : k ≠ k' := by simpa using hne
+        have hgt : k' < k := by
+          have hle : k' ≤ k := hnlt
+          apply String.not_le.1
+          intro hle'
+          exact hne' (String.le_antisymm hle' hle)
+        refine sorted_cons (ih (sorted_tail h)) ?_
+        intro x hx
+        rcases mem_put hx with rfl | hx
+        · exact hgt
+        · exact sorted_head_lt h x hx
+
+theorem toFields_sorted (kvs : List (List Char × JDoc)) :
+    ∀ acc, Fields.Sorted acc → Fields.Sorted (toFields kvs acc) := by
+  induction kvs with
+  | nil => intro acc h; exact h
+  | cons kd rest ih => intro acc h; obtain ⟨k, d⟩ := kd; exact ih _ (put_sorted _ _ _ h)
+
+theorem sorted_distinct (f : Fields) (h : Fields.Sorted f) : f.Pairwise (fun a b => a.1 ≠ b.1) := by
+  induction f with
+  | nil => exact List.Pairwise.nil
+  | cons kv t ih =>
+    obtain ⟨k, v⟩ := kv
+    refine List.pairwise_cons.2 ⟨?_, ih (sorted_tail h)⟩
+    intro x hx
+    exact String.ne_of_lt (sorted_head_lt h x hx)
+
+/-- **C06 (the row carries the document).** A line that is the text of a JSON object `d`, put
+through `json`: the row gets, for every name `k`, the translation of the document's (last) member
+`k`; every field the row had under another name stays; nothing else appears. -/
+theorem C06_json_fields (P : F64 → List Char) (ext : Ext) (rec : Record) (kvs : List (List Char × JDoc))
+    (hraw : rec.raw = String.ofList (printK P (.obj kvs) []))
+    (hn : NumsOK P (.obj kvs)) (hdepth : depthOf (.obj kvs) ≤ 127) :
+    ∃ rec', applyStateless ext (.json none) rec = .ok (some rec') ∧ rec'.raw = rec.raw ∧
+      ∀ k, Fields.get k rec'.data =
+        match lastMember k kvs with
+        | some d => some (toValue d)
+        | none => Fields.get k rec.data := by
+  have hp := C06_json_roundtrip P (.obj kvs) hn hdepth
+  rw [← hraw] at hp
+  simp only [toValue] at hp
+  obtain ⟨rec', h1, h2, h3⟩ := (C06_members_become_fields ext rec).2.1 _ hp
+  refine ⟨rec', h1, h2, ?_⟩
+  intro k
+  rw [h3 k, lastVal_eq_get k _ (sorted_distinct _ (toFields_sorted kvs [] trivial)), get_toFields]
+  cases lastMember k kvs <;> simp [Fields.get]
+
+/-- **C06 (numbers).** An integer literal inside i64 is that `Int` (`toValue (.int i) = .int i`); any
+other number goes through `from_float`, which never changes the numeric value: it returns the double
+itself unless the double is an integer of the i64 range, and then that integer (`x.0 ↔ x`).  (Before
+the repair 6cfc8ab `from_float` sent every `0 < x < 2.2e-16` to 0 and every `|x| ≥ 2^63` to
+i64::MAX/MIN: class C06/float-to-int-corruption.) -/
+theorem C06_number_faithful (f : F64) (i : Int) :
+    toValue (.int i) = .int i ∧
+    Value.num (toValue (.num f)) = Value.num (.float f) ∧
+    (Value.isI64Valued f = false → toValue (.num f) = .float f) :=
+  ⟨rfl, Value.num_fromFloat f, fun h => Value.fromFloat_of_not_isI64Valued h⟩
+
+/-! ### non-vacuity: a document with escapes, nesting, a duplicate and an empty name -/
+
+def sampleDoc : JDoc :=
+  .obj [("a".toList, .arr [.int 1, .int (-2), .str "x\ny\"z".toList, .null]),
+        ("".toList, .obj [("c".toList, .bool true), ("é".toList, .int 9223372036854775807)]),
+        ("a".toList, .int 3)]
+
+example (P : F64 → List Char) : NumsOK P sampleDoc ∧ depthOf sampleDoc ≤ 127 := by
+  simp [sampleDoc, NumsOK, NumsOKs, NumsOKm, depthOf, depthElems, depthMembers, Value.inI64, F64.i64Min, F64.i64Max]
+
+example : String.ofList (printK (fun _ => []) sampleDoc []) =
+    "{\"a\":[1,-2,\"x\\ny\\\"z\",null],\"\":{\"c\":true,\"é\":9223372036854775807},\"a\":3}" := by
+  decide
+
+/-- non-vacuity of the hypothesis on other numbers: `2.5` printed as `2.5` -/
+example : NumsOK (fun _ => "2.5".toList) (.num (F64.ofDecimal false 25 (-1))) := by
+  have fin25 : (F64.ofDecimal false 25 (-1)).isFinite = true := by decide
+  refine ⟨?_, '2', ['.', '5'], rfl, Or.inr (by decide)⟩
+  intro rest hs
+  have htw := takeWhile_append_stop Char.isDigit [] rest (by simp) hs.not_digit
+  simp only [List.nil_append] at htw
+  have e : "2.5".toList ++ rest = '2' :: '.' :: '5' :: rest := rfl
+  rw [e]
+  unfold Json.parseNum
+  simp only [splitSign_of_ne '2' _ (by decide)]
+  simp [Json.fracPart, htw.1, htw.2, expPart_stop rest hs, Value.digitsToNat, Value.digitVal, fin25]
+
+/-- the duplicate name keeps its last value -/
+example : lastMember "a" (match sampleDoc with | .obj kvs => kvs | _ => []) = some (.int 3) := by
+  simp [sampleDoc, lastMember]
 
 end Ag.C06
